@@ -59,6 +59,7 @@ class Prop(Check):
         "Proc.C33_walk_wrap_text",
         "Proc.C33_walk_located",
         "Proc.C33_load_first_model",
+        "Proc.C33_load_fill_text",
     ]
     DRIVER = "Drivers/Proc.lean"
     QUICK_CASES = 390
